@@ -915,7 +915,7 @@ func (env *rEnv) call(n *rNode) Value {
 			}
 			return env.fail("no SQL statement %d on this path", idx)
 		}
-	case "cteOK", "cteRest", "cteWhere", "cteCol", "cteCols":
+	case "cteOK", "cteRest", "cteWhere", "cteCol", "cteCols", "cteColIsText":
 		// the statement text s is `WITH _keyspace AS (SELECT ... FROM documents WHERE ...) <spliced string>`
 		text, ok := e.reverseStr(argT(0).S)
 		if !ok {
@@ -959,6 +959,22 @@ func (env *rEnv) call(n *rNode) Value {
 			id := argT(1)
 			c.row, c.id = Select(env.post.g.Docs, id, SRow), id
 			return sym(And(rowPresent(c.row), c.where(sub.Where)))
+		case "cteColIsText":
+			// the column is CAST(... AS TEXT): SQLite's JSON operators read a BLOB argument as JSONB (3.45+), so a JSON
+			// document stored as a blob has to be handed to them as text
+			if !good || n.Args[1].Op != "str" {
+				return env.fail("cteColIsText: not a keyspace statement")
+			}
+			for _, it := range sub.Sel {
+				name := it.Alias
+				if name == "" && it.Expr != nil && it.Expr.Op == "col" {
+					name = it.Expr.Name
+				}
+				if !it.Star && strings.EqualFold(name, n.Args[1].Text) {
+					return sym(BoolLit(it.Expr != nil && it.Expr.Op == "cast" && it.Expr.Name == "text"))
+				}
+			}
+			return sym(TFalse)
 		case "cteCol":
 			if !good || n.Args[1].Op != "str" {
 				return env.fail("cteCol: not a keyspace statement")
